@@ -25,7 +25,7 @@ extern "C" void sim_ctx_switch(void** save_sp, void* new_sp);   // sim/sim.cpp
 #include <thread>
 #include <mutex>
 #include <condition_variable>
-namespace { thread_local int tl_tid = 0; thread_local int tl_nthr = 1; std::mutex g_crit, g_loopmx, g_barmx; std::condition_variable g_barcv; int g_bar_arrived = 0; long g_bar_gen = 0; int g_team_threads = 1; }
+namespace { thread_local int tl_tid = 0; thread_local int tl_nthr = 1; std::mutex g_crit, g_loopmx, g_barmx; std::condition_variable g_barcv; int g_bar_arrived = 0; long g_bar_gen = 0; int g_team_threads = 1; thread_local long tl_singles = 0; long g_single_claimed = 0; }
 #endif
 
 namespace {
@@ -52,8 +52,8 @@ int team_size(sim::World* w, unsigned num_threads) {
 // region (GOMP_barrier, the implicit barrier at the end of a work-sharing loop); the threads are run in the seeded order, and
 // when every unfinished thread waits at the barrier all of them are released. Without barriers this is exactly "one thread
 // after the other in a seeded order". No MPI traffic happens inside a region, so this mini-scheduler is local to the rank.
-struct Fiber { void* sp = nullptr; char* stack = nullptr; int tid = 0; enum { NEW, RUNNABLE, AT_BARRIER, DONE } st = NEW; void* fake = nullptr; std::exception_ptr exc; };
-struct TeamRun { std::vector<Fiber> f; void (*fn)(void*) = nullptr; void* data = nullptr; void* sched_sp = nullptr; void* sched_fake = nullptr; int cur = -1;
+struct Fiber { long singles = 0; void* sp = nullptr; char* stack = nullptr; int tid = 0; enum { NEW, RUNNABLE, AT_BARRIER, DONE } st = NEW; void* fake = nullptr; std::exception_ptr exc; };
+struct TeamRun { long single_claimed = 0; std::vector<Fiber> f; void (*fn)(void*) = nullptr; void* data = nullptr; void* sched_sp = nullptr; void* sched_fake = nullptr; int cur = -1;
                  const void* rank_bottom = nullptr; size_t rank_size = 0; sim::World* w = nullptr; };
 TeamRun* g_team = nullptr;
 const size_t FIBER_STACK = 512u << 10;
@@ -178,7 +178,7 @@ void run_team(sim::World* w, void (*fn)(void*), void* data, int T, bool combined
     w->omp_nthr = T;
     g_loop.last_tid = order[T - 1];
 #ifdef GOMP_FIBERS
-    if (T > 1) { run_team_fibers(w, fn, data, T, order); g_loop.active = false; return; }
+    if (T > 1 && !w->opt().inline_single) { run_team_fibers(w, fn, data, T, order); g_loop.active = false; return; }   // (an inline rank has no fiber stack to return to; it is only used with real threads)
 #endif
     for (int i = 0; i < T; i++) {
         w->omp_tid = order[i];
@@ -217,10 +217,10 @@ void run_team_threads(sim::World* w, void (*fn)(void*), void* data, int T, bool 
     g_loop.active = false;
     if (combined_loop) loop_init(ls, le, li, lc);
     g_loop.last_tid = -1;
-    g_team_threads = T; g_bar_arrived = 0;
+    g_team_threads = T; g_bar_arrived = 0; g_single_claimed = 0;
     std::vector<std::thread> th;
-    for (int i = 1; i < T; i++) th.emplace_back([=]() { tl_tid = i; tl_nthr = T; fn(data); tl_tid = 0; tl_nthr = 1; });
-    tl_tid = 0; tl_nthr = T;
+    for (int i = 1; i < T; i++) th.emplace_back([=]() { tl_tid = i; tl_nthr = T; tl_singles = 0; fn(data); tl_tid = 0; tl_nthr = 1; });
+    tl_tid = 0; tl_nthr = T; tl_singles = 0;
     fn(data);
     tl_nthr = 1;
     for (auto& t : th) t.join();
@@ -331,7 +331,27 @@ void GOMP_critical_name_end(void**) {}
 void GOMP_atomic_start(void) {}
 void GOMP_atomic_end(void) {}
 #endif
-bool GOMP_single_start(void) { sim::World* w = W(); return !w || w->omp_nthr <= 1 || w->omp_tid == 0; }
+// 'single': the first thread of the team that reaches the k-th single construct of the region executes it
+bool GOMP_single_start(void) {
+#ifdef SIM_GOMP_THREADS
+    if (tl_nthr <= 1) return true;
+    std::lock_guard<std::mutex> lk(g_loopmx);
+    long k = ++tl_singles;
+    if (k > g_single_claimed) { g_single_claimed = k; return true; }
+    return false;
+#else
+    sim::World* w = W();
+    if (!w || w->omp_nthr <= 1) return true;
+#ifdef GOMP_FIBERS
+    if (g_team && g_team->cur >= 0) {
+        long k = ++g_team->f[g_team->cur].singles;
+        if (k > g_team->single_claimed) { g_team->single_claimed = k; return true; }
+        return false;
+    }
+#endif
+    return w->omp_tid == 0;
+#endif
+}
 void GOMP_ordered_start(void) {}
 void GOMP_ordered_end(void) {}
 
